@@ -53,3 +53,123 @@ H("C07", file="core/pretty_decimal.rs", name="c07_literal_10", tier="thorough", 
   bound="every ASCII byte string of length 0..=10; unwind 12",
   models=[FMT],
   oracle="same as c07_literal_6")
+
+# --------------------------------------------------------------------------- C06
+prop("C06", title="Every input yields output or a diagnostic: no crash, no hang",
+     level_text="Bounded model checking of the named kernels where totality is at risk: the error-span search of "
+                "ParseError::new for every ASCII text <= 5 bytes x every entry start x every error offset (incl. end of "
+                "input) and around a 3-byte character; the numeric-literal scanner on every ASCII string <= 6 bytes and the "
+                "39..41-digit overflow step; the division sites of book-keeping (check_balance residuals, price insertion). "
+                "Termination is decided by unwinding assertions. Totality of the whole winnow parser on arbitrary text, "
+                "include cycles, main()'s error mapping and wall-clock promptness are outside (DESIGN C06).",
+     level_note="Trusted: Kani/CBMC; fmt::format stub; ASCII restriction (plus one concrete multi-byte character); "
+                "verif_map / verif_dec / bump models in the book-keeping harnesses; only the listed kernels are claimed.")
+H("C06", file="core/parse_error.rs", name="c06_parse_error_ascii_5", timeout=600,
+  functions=["ParseError::new", "compute_line_number", "LocatingSlice::{checkpoint,reset,offset_from}"],
+  bound="every ASCII text of 0..=5 bytes, entry start 0..=len, error offset 0..=len-start; unwind 8",
+  models=[FMT],
+  oracle="returns (unwinding assertion on the boundary search); span starts at the error offset, is not inverted, "
+         "ends inside the text; diagnostic text = text from entry start; line_start = 1 + newlines before entry")
+H("C06", file="core/parse_error.rs", name="c06_parse_error_multibyte", timeout=600,
+  functions=["ParseError::new"],
+  bound="texts [a]あ[b] with a,b symbolic ASCII or absent; start/offset at every character boundary; unwind 9",
+  models=[FMT], oracle="same as c06_parse_error_ascii_5")
+H("C06", file="core/pretty_decimal.rs", name="c07_literal_6", timeout=900,
+  functions=["PrettyDecimal::from_str", "try_find_char"],
+  bound="every ASCII byte string of length 0..=6; unwind 8", models=[FMT],
+  oracle="no panic, no overflow, no out-of-range slice on any path (Kani's built-in checks) in addition to C07's oracle")
+H("C06", file="core/pretty_decimal.rs", name="c07_overflow_39_41", timeout=900,
+  functions=["PrettyDecimal::from_str"],
+  bound="38 nines + 1..3 symbolic characters from [0-9.]; unwind 50", models=[FMT],
+  oracle="rejected without arithmetic overflow")
+
+# --------------------------------------------------------------------------- C14
+prop("C14", title="Diagnostics name the right file and line",
+     level_text="Bounded model checking of the offset/line arithmetic behind every diagnostic: compute_line_number on every "
+                "byte string <= 8 bytes and position; ParseError::new's line_start/error_span for every ASCII text <= 5 bytes; "
+                "clip/ParsedSpan::resolve for all spans; ErrorContext::new. The annotate-snippets rendering and which path "
+                "report::process hands over for an included file (Loader I/O) are outside (DESIGN C14).",
+     level_note="Trusted: Kani/CBMC; fmt::format stub; texts restricted to the stated lengths.")
+H("C14", file="core/parse_error.rs", name="c14_line_number_8", timeout=300,
+  functions=["compute_line_number"],
+  bound="every byte string of 0..=8 bytes (any byte values) and every position 0..=len; unwind 10",
+  oracle="result == 1 + number of 0x0A bytes strictly before the position")
+H("C14", file="core/parse_error.rs", name="c06_parse_error_ascii_5", timeout=600,
+  functions=["ParseError::new", "compute_line_number"],
+  bound="every ASCII text of 0..=5 bytes, entry start, error offset; unwind 8", models=[FMT],
+  oracle="line_start = line of the entry start in the original text whatever precedes it; span starts where parsing stopped")
+
+REC0 = {"Evaluable>::eval_visit": 0}
+RECNOTE = "recursion of Evaluable::eval_visit bounded at 0 re-entries (CBMC --unwindset, recursion unwinding assertions on): syntax trees hold literal amounts only"
+
+# --------------------------------------------------------------------------- C01
+prop("C01", title="Accepted transactions balance; unbalanced ones are rejected, not crashed on",
+     level_text="Bounded model checking of the acceptance predicate, compositionally: (1) check_balance on EVERY residual over 1, 2 and 3 "
+                "commodities (16-bit mantissas, both signs, zero entries, declared precision with half-unit rounding boundaries, both map "
+                "iteration orders) against the statement's predicate, incl. the price it records; (2) every posting shape "
+                "`v X [@ r | @@ r | {r} | {{r}} | {r} @ r2]` through ComputedPosting::compute_from_syntax on real syntax trees: "
+                "balancing value = lot else cost else amount, the three rejection rules. The fold of posting values into the residual "
+                "inside add_transaction (Amount += PostingAmount) is exercised by the thorough-tier whole-transaction harnesses. "
+                "4+ commodities, values beyond 16/32 bits, parenthesised expressions (C08) and the parser are outside.",
+     level_note="Trusted: Kani/CBMC; models verif_map (capacity 2-4), verif_dec (exact on mantissa < 2^32, scale <= 8), bump allocator "
+                "and fmt::format stubs; insert_price replaced by an asserting recorder in the residual harnesses (insert_price itself: C09); "
+                "static interned names in the residual harnesses.")
+for k, exp in ((2, 220), (3, 220), (1, 140)):
+    H("C01", file="core/book_keeping.rs", name="c01_residual_%d" % k, timeout=1500, expect_s=exp,
+      functions=["check_balance", "Amount::round", "Amount::is_zero", "Amount::maybe_pair", "Amount::from_values (+=)"],
+      bound="residual over %d commodit%s: X scale 0, Y scale 2 with optional declared precision 1, Z scale 0; 16-bit mantissas, "
+            "both signs, zeros; symbolic map iteration order; unwind 6" % (k, "y" if k == 1 else "ies"),
+      models=[FMT, DEC, MAPND, BUMP, "PriceRepositoryBuilder::insert_price -> asserting recorder (both sides non-zero, positive, different commodities)"],
+      oracle="Ok => all rounded totals zero, or exactly two non-zero totals of opposite sign (and one positive price recorded); "
+             "all zero => Ok; Err is UnbalancedPostings; no panic")
+for nm, exp in (("plain", 60), ("cost_rate", 140), ("cost_total", 140), ("lot_rate", 140), ("lot_total", 140),
+                ("lot_and_cost", 210), ("same_commodity", 140)):
+    H("C01", file="core/book_keeping.rs", name="c01_valuation_" + nm, timeout=1500, expect_s=exp, recursion=REC0, map_cap=3,
+      tier="quick" if nm in ("plain", "cost_total", "lot_and_cost", "same_commodity") else "thorough",
+      functions=["ComputedPosting::compute_from_syntax", "Exchange::try_from_syntax", "Exchange::exchange",
+                 "ComputedPosting::calculate_balance_amount", "ComputedPosting::calculate_converted_amount",
+                 "Evaluable::eval_mut", "TryFrom<Evaluated> for PostingAmount/SingleAmount"],
+      bound="one posting `v X` (or bare 0) with annotation %s; v 16-bit scale 0, rates 16-bit scale 2 / 0, all signs and zeros; unwind 6" % nm,
+      models=[FMT, DEC, MAP, BUMP, RECNOTE],
+      oracle="balancing value = lot price else cost else own amount (rate x quantity; total with the quantity's sign); converted amount = "
+             "cost else lot; zero rate / rate in own commodity / rate on commodity-less zero => their dedicated errors; nothing else rejected")
+
+# --------------------------------------------------------------------------- C02
+prop("C02", title="Balance assertions are enforced exactly and in file order",
+     level_text="Bounded model checking of one posting step from an ARBITRARY valid running balance of the account over two commodities "
+                "(inductive step, so any history): quick tier = the two mechanisms process_posting composes (Balance::add_posting_amount then "
+                "Amount::assert_balance) for `= e X`, `= e Y`, bare `= 0`; thorough tier = the real process_posting on a syntax-tree posting "
+                "`A  v X = e`, checking the verdict, that the error carries this posting's account and assertion spans, and the post-state. "
+                "Rendered computed/diff text, several assertions inside one transaction through add_transaction, aliases/includes are outside.",
+     level_note="Trusted: Kani/CBMC; verif_map (capacity 2), verif_dec, bump, fmt stubs; the pre-balance is built with the Balance API from "
+                "two symbolic 16-bit values (the representation invariant 'no stored zero' is itself asserted after every step).")
+for nm, exp in (("same_commodity", 135), ("other_commodity", 135), ("bare_zero", 260)):
+    H("C02", file="core/book_keeping.rs", name="c02_kernel_" + nm, timeout=1500, expect_s=exp, map_cap=2,
+      functions=["Balance::add_posting_amount", "Amount::assert_balance", "Amount::remove_zero_entries", "Amount::get_part"],
+      bound="pre-balance a X + b Y (16-bit, signed, zero = absent), posting v X, asserted e at scale 2; symbolic map order; unwind 6",
+      models=[DEC, MAPND],
+      oracle="assert_balance returns absolute zero <=> (pre + v)[commodity] == e (bare 0: everything zero); diff = asserted - computed; "
+             "running balance = pre + v with no zero entries")
+for nm in ("same_commodity", "other_commodity", "bare_zero"):
+    H("C02", file="core/book_keeping.rs", name="c02_assert_" + nm, tier="thorough", timeout=3000, expect_s=780, recursion=REC0, map_cap=2,
+      mem_gb=24,
+      functions=["process_posting", "ComputedPosting::compute_from_syntax", "Balance::add_posting_amount", "Amount::assert_balance"],
+      bound="pre-balance a X + b Y, posting `A  v X = e` as a tracked syntax tree with spans; 16-bit values; unwind 6",
+      models=[FMT, DEC, MAP, BUMP, RECNOTE],
+      oracle="Ok <=> assertion true after applying this posting; Err = BalanceAssertionFailure with this posting's spans; stored amount = v X; "
+             "post-balance = pre + v")
+
+# --------------------------------------------------------------------------- C03
+prop("C03", title="Omitted and assigned amounts are inferred exactly",
+     level_text="Bounded model checking of the assignment rule through the real process_posting on syntax-tree postings `A  = e X` and "
+                "`A  = 0` from an ARBITRARY pre-balance over two commodities: inferred amount = X - current balance (bare 0: minus the whole "
+                "single-commodity balance), the account is left at X / empty, other commodities and other accounts untouched, `= 0` on a "
+                "multi-commodity account rejected. The omitted-amount rule (deduced = -(sum of balancing values), second unfilled posting "
+                "rejected) is checked through add_transaction in the thorough tier.",
+     level_note="Trusted: Kani/CBMC; verif_map (capacity 2), verif_dec, bump, fmt stubs; literal-only syntax trees.")
+for nm, exp in (("commodity", 160), ("bare_zero", 160)):
+    H("C03", file="core/book_keeping.rs", name="c03_assign_" + nm, timeout=1500, expect_s=exp, recursion=REC0, map_cap=2,
+      functions=["process_posting", "Balance::set_partial", "Amount::set_partial", "PostingAmount::check_sub"],
+      bound="pre-balance a X + b Y (16-bit signed, zero = absent); assigned e X (16-bit) / bare 0; unwind 6",
+      models=[FMT, DEC, MAP, BUMP, RECNOTE],
+      oracle="amount == e - pre[X], post[X] == e, Y untouched; `= 0`: amount == -pre and account empty, Err(BalanceFailure) iff two commodities held")
